@@ -18,6 +18,36 @@ class HK:
     @staticmethod
     def hs():
         return 8
+# classes whose class-level attribute access runs program code: a registration hook must not touch them
+_H_EVENTS = []
+class _Loud:
+    def __set_name__(self, owner, name):
+        self.name = name
+    def __get__(self, obj, owner):
+        _H_EVENTS.append(self.name)
+        print('H: descriptor', self.name, 'read on', 'class' if obj is None else 'instance', len(_H_EVENTS))
+        return len(_H_EVENTS)
+class _Strict:
+    def __get__(self, obj, owner):
+        if obj is None:
+            raise RuntimeError('class-level access before set-up')
+        return 'strict ok'
+class _HMeta(type):
+    def __getattr__(cls, name):
+        print('H: metaclass __getattr__', name)
+        raise AttributeError(name)
+class HDesc(metaclass=_HMeta):
+    loud = _Loud()
+    def hm(self):
+        return 9
+class HBase:
+    lazy = _Loud()
+    def base_m(self):
+        return 10
+class HStrict(HBase):
+    strict = _Strict()
+    def hm(self):
+        return 11
 '''
 
 # (tags, code).  {p} is the snippet's print tag; names are suffixed with {n} to stay unique.
@@ -444,6 +474,62 @@ class User_{n}:
 _u_{n} = User_{n}()
 print('{p}', _u_{n}.profile(), _u_{n}.other())
 '''),
+    (['annotations'], '''
+_notes_{n} = []
+def note_{n}(tag, value):
+    _notes_{n}.append(tag)
+    return value
+def annotated_{n}(a: int, b: note_{n}('b', str) = 'x', *rest: float, flag: bool = False) -> note_{n}('ret', list):
+    return [a, b, rest, flag]
+class Ann_{n}:
+    count: int = 0
+    label: note_{n}('attr', str) = 'l'
+    def meth(self, v: 'Ann_{n}') -> 'Ann_{n}':
+        return v
+def coerce_{n}(**kw):
+    hints = annotated_{n}.__annotations__
+    try:
+        return [hints[k](v) for k, v in sorted(kw.items())]
+    except TypeError:
+        return 'annotations are not callable objects'
+print('{p}', sorted(annotated_{n}.__annotations__.items(), key=str), _notes_{n})
+print('{p}', Ann_{n}.__annotations__, Ann_{n}.meth.__annotations__, coerce_{n}(a='3', flag=''))
+try:
+    def bad_annotation_{n}(x: undefined_name_{n}):
+        return x
+    print('{p}', 'defined', bad_annotation_{n}.__annotations__)
+except NameError as _ne_{n}:
+    print('{p}', 'annotation raised NameError')
+'''),
+    (['annotations', 'dataclass'], '''
+import dataclasses, typing
+@dataclasses.dataclass
+class Conf_{n}:
+    name: str
+    retries: int = 3
+    registry: typing.ClassVar[dict] = {{}}
+    tags: typing.List[str] = dataclasses.field(default_factory=list)
+    def describe(self) -> str:
+        return '%s/%d' % (self.name, self.retries)
+def hinted_{n}(x: typing.Optional[int], y: 'typing.List[int]' = None) -> typing.Dict[str, int]:
+    return {{'x': x or 0}}
+print('{p}', [(f.name, f.type) for f in dataclasses.fields(Conf_{n})], Conf_{n}('c').describe())
+print('{p}', typing.get_type_hints(hinted_{n}), typing.get_type_hints(Conf_{n}.describe), hinted_{n}.__annotations__['x'])
+'''),
+    (['descriptor_class'], '''
+from c08_helper import HDesc as HD_{n}
+_hd_{n} = HD_{n}()
+print('{p}', 'HDesc', _hd_{n}.hm(), _hd_{n}.loud, HD_{n}.loud, getattr(HD_{n}, 'missing_{n}', 'default'))
+'''),
+    (['descriptor_class', 'strict_descriptor'], '''
+from c08_helper import HStrict as HS_{n}
+_hs_{n} = HS_{n}()
+print('{p}', 'HStrict', _hs_{n}.hm(), _hs_{n}.base_m(), _hs_{n}.strict, _hs_{n}.lazy)
+try:
+    HS_{n}.strict
+except RuntimeError as _re_{n}:
+    print('{p}', 'class access raised', _re_{n})
+'''),
     (['lib_use'], '''
 print('{p}', 'lib', c08lib.alpha.fa(1), c08lib.beta.fb(1), c08lib.gamma.fg(1))
 '''),
@@ -477,6 +563,7 @@ TOP_IMPORTS = [
     ([], 'import json, re as regex'),
     ([], 'import os, os'),
     (['star'], 'from c08_helper import *'),
+    (['descriptor_class_top'], 'from c08_helper import HDesc, HStrict as HTopStrict, HK as HTopK'),
     (['star_std'], 'from string import *'),
     (['bare_relative'], 'from . import sibling_mod'),
 ]
@@ -518,6 +605,10 @@ def gen_program(rnd, module_mode=False):
     # constructs whose handling is known to be wrong are kept rarer so most programs are clean
     pool = [i for i, (t, _c) in enumerate(SNIPPETS)
             if not (set(t) & {'genret', 'genclose', 'genthrow', 'shadow_profile'}) or rnd.random() < 0.35]
+    if any('annotations' in l for l in fl):
+        # with PEP 563 in the program itself dataclasses resolves the string "typing.ClassVar" through
+        # sys.modules['__main__'], which under kernprof (with or without -p) is kernprof: property C07
+        pool = [i for i in pool if not {'annotations', 'dataclass'} <= set(SNIPPETS[i][0])]
     chosen = rnd.sample(pool, min(k, len(pool)))
     for j, si in enumerate(chosen):
         stags, code = SNIPPETS[si]
